@@ -167,6 +167,19 @@ func runC20(t *rapid.T) {
 	for i := range writerOps {
 		writerOps[i] = []int{0, 0, 1}[simkit.Int(t, "wop", 0, 2)]
 	}
+	if simkit.Chance(t, "deepremoval", 1, 3) {
+		// a reorganisation deeper than the block cache: m blocks added, then m removed in a row (the cache runs empty
+		// and is refilled from the database while readers look at the tip)
+		m := cacheSize + simkit.Int(t, "deeper", 0, 2)
+		writerOps = writerOps[:0]
+		for i := 0; i < m; i++ {
+			writerOps = append(writerOps, 0)
+		}
+		for i := 0; i < m; i++ {
+			writerOps = append(writerOps, 1)
+		}
+		nStable = cacheSize + 1 + simkit.Int(t, "morestable", 0, 2)
+	}
 	readerPlans := make([][]readOp, nReaders)
 	for r := range readerPlans {
 		n := simkit.Int(t, "nread", 1, 6)
